@@ -24,14 +24,14 @@ RULE = ("real directories under a per-process configuration (SNELDB_CONFIG): WAL
         "non-matching file names, directories, empty files, files with blank / torn / foreign / invalid-UTF-8 lines, entries with "
         "null, bool, i64/u64 edge, float, string, nested JSON payload values in several spellings) x keep_from_log_id x fault "
         "patterns of the archive directory (missing, a regular file, a directory squatting on the predicted archive name of a subset "
-        "of the files, pre-existing garbage / decodable archive of the same name) x conservative and plain mode x one or two cleanup "
+        "of the files, pre-existing garbage / decodable archive of the same name, every write failing after File::create via RLIMIT_FSIZE=0) x conservative and plain mode x one or two cleanup "
         "rounds with id reuse, archive_log called directly, recovery over foreign archive directory contents; plus the MessagePack trip "
         "of every ScalarValue variant.  A case is non-trivial when a cleanup deleted a file, an injected fault applied, or recovery "
         "returned entries; distinct by (scenario kind, implementation output)")
 ASSUMPTIONS = [
     "recognising a raw WAL line (serde_json number/float parsing, string unescaping, serde's struct rules) is outside the model: each generated line carries its classification (invalid UTF-8 / blank / not an entry / entry fields), built by the generator from the structured entry; the Python oracle re-parses the raw line independently and the differential run checks the classification against the real code",
     "zstd and rmp-serde are modelled by their observable effect on entries (identity on line-born entries; Timestamp->Int64, Binary->base64 text, non-finite float->Null)",
-    "I/O failures other than the structural ones (archive path is a regular file, a directory occupies the archive file name, log path is a directory, invalid UTF-8) cannot be injected on the real code; the theorems quantify over an abstract per-file outcome (early / late failure) as well",
+    "I/O failures are injected on the real code structurally (archive path is a regular file, a directory occupies the archive file name, log path is a directory, invalid UTF-8) and, for the late failure, by RLIMIT_FSIZE=0 for all files of a pass at once; a late failure of only some files and the early failure (compression/open error) are covered by the theorems' abstract per-file outcome only",
     "read_dir order is not modelled; the model processes the directory in the listed order and the theorems hold for every order",
     "files appearing in the WAL directory between the archiver's scan and the cleaner's scan (a concurrent writer) are not modelled",
 ]
@@ -537,6 +537,19 @@ def scenario(rng, kind):
         for _ in range(rng.range(1, 3)):
             toks.append(f"L={rng.choice(idset + [rng.below(9), 99999, 100000])}")
         toks.append("REC")
+    elif kind == "starve":
+        # late I/O failure: File::create succeeds (truncating), the write fails
+        toks.append("R=d"); populate(idset)
+        r = rng.below(3)
+        if r == 0:
+            toks += ["F=0", f"C={keep}", "F=-", "REC"]
+        elif r == 1:
+            v = rng.choice(idset)
+            toks += [f"L={v}", "F=0", f"C={max(idset) + 1}", "F=-", "REC", f"C={max(idset) + 1}", "REC"]
+        else:
+            p = pred(canonical(rng.choice(idset)))
+            es = "|".join(mem_entry(rng, ids) for _ in range(rng.range(1, 2)))
+            toks += [f"A={hb(p)}=a=0=1=2={es}", "F=0", f"C={max(idset) + 1}", f"L={rng.choice(idset)}", "F=-", "REC"]
     elif kind == "zoo":
         toks.append("R=d")
         names = [b"a.zst", b"x.zst", b".zst", b"noext", b"b.ZST", b"c.wal.zst", b"wal-00000-1-1.wal.zst", b"wal-00000-1-1.wal.zst.bak",
@@ -559,11 +572,11 @@ def scenario(rng, kind):
 
 
 KINDS = [("basic", 5), ("plain", 3), ("squat", 4), ("retry", 2), ("rootfile", 1), ("badfile", 2), ("alias", 3), ("names", 2),
-         ("wide", 2), ("mismatch", 2), ("reuse", 2), ("preexisting", 2), ("direct", 2), ("zoo", 2)]
+         ("wide", 2), ("mismatch", 2), ("reuse", 2), ("preexisting", 2), ("direct", 2), ("zoo", 2), ("starve", 2)]
 
 
 def cases(rng, tier):
-    n = 420 if tier == "quick" else 12000
+    n = 2500 if tier == "quick" else 150000
     out = []
     bag = [k for k, w in KINDS for _ in range(w)]
     for _ in range(n):
@@ -571,7 +584,7 @@ def cases(rng, tier):
         mode, toks = scenario(rng, kind)
         out.append({"kind": kind, "line": f"walarch_run {mode} " + " ".join(toks)})
     # malformed stream: random directory soup (names, objects, keeps) in conservative mode
-    for _ in range(60 if tier == "quick" else 2000):
+    for _ in range(300 if tier == "quick" else 20000):
         ids = Ids()
         toks = ["R=" + rng.choice(["m", "d", "f"])]
         for _ in range(rng.range(0, 5)):
@@ -586,7 +599,7 @@ def cases(rng, tier):
         toks += [f"C={rng.choice([0, 1, 2, 3, 5, U64])}", "REC"]
         out.append({"kind": "soup", "line": "walarch_run c " + " ".join(toks)})
     # the MessagePack trip of single values
-    for _ in range(150 if tier == "quick" else 3000):
+    for _ in range(300 if tier == "quick" else 10000):
         out.append({"kind": "rt", "line": "walarch_rt " + mem_scalar(rng)})
     return out
 
@@ -672,6 +685,7 @@ def judge(c, impl):
     archived_ok = []   # (round, id, entries, name) of every log archive_log (L) reported as archived
     touched = set()    # archive names some cleanup round or L may have written (predicted from the inputs)
     rnd = 0
+    starve = False     # F=0: every write to a regular file fails (after File::create truncated the target)
     last_rec = None
     rec_is_last = False
     for tok in t[2:]:
@@ -701,6 +715,8 @@ def judge(c, impl):
                 squat.add(nm)
             elif f[1] == "a":
                 pre[nm] = [mem_entry_after_trip(e) for e in f[5].split("|")] if f[5] else []
+        elif k == "F":
+            starve = v == "0"
         elif k == "AR":
             squat.discard(vlib.unhx(v))
             pre.pop(vlib.unhx(v), None)
@@ -715,7 +731,12 @@ def judge(c, impl):
             o = obs[oi]
             oi += 1
             i = int(v)
+            if not o.startswith("L:ok:") and wal.get(canonical(i)) is not None and read_file(wal[canonical(i)]) is not None \
+                    and root_kind != "f":
+                touched.add(predicted_archive_name(i, read_file(wal[canonical(i)])))
             if o.startswith("L:ok:"):
+                if starve:
+                    fails.append((f"archive_log({i}) reported success although writes fail", None))
                 raws = wal.get(canonical(i))
                 es = read_file(raws) if raws is not None else None
                 if es is None:
@@ -752,6 +773,8 @@ def judge(c, impl):
                         fault = f"a directory occupies the archive name of {cn!r}"
                     else:
                         touched.add(predicted_archive_name(i, read_file(wal[cn])))
+                        if starve:
+                            fault = f"writing the archive of {cn!r} fails (file size limit 0)"
                     if fault and first_fault is None:
                         first_fault = fault
                 fault = first_fault
@@ -874,6 +897,6 @@ def nontrivial_key(c, impl):
         return None
     if c["line"].startswith("walarch_rt"):
         return ("rt", impl)
-    if ":a:" in impl or "L:" in impl or c["line"].split()[1] == "p" or c.get("kind") in ("squat", "rootfile", "badfile", "retry"):
+    if ":a:" in impl or "L:" in impl or c["line"].split()[1] == "p" or c.get("kind") in ("squat", "rootfile", "badfile", "retry", "starve"):
         return (c.get("kind"), impl)
     return None
